@@ -27,7 +27,7 @@ class C03(Prop):
                    'by up to 8x; total supplied or estimated) the real estimate() is run with each of MD, RDA and IG. The harness solves '
                    'min 0.5*||(A p - b)/sigma||^2 over p >= 0, sum p = model.total on the full table, computes the Frank-Wolfe gap g_ref of its solution, and checks '
                    'L_ref - g_ref - tol <= L(model) <= L_ref + tol with tol = 1e-3*(L(uniform) - L_ref) + 1e-9, and L(model) <= L(uniform). '
-                   '"Given enough iterations" is instantiated as 5000 (quick) / 50000 (thorough) iterations; a case that misses the upper bound is re-run once with 4x '
+                   '"Given enough iterations" is instantiated as 5000 (quick) / 50000 (thorough) iterations; a case that misses the upper bound by less than 100*tol is re-run once with 4x '
                    'the iterations before it is reported.')
     rule = ('seeded (VERIF_SEED) instances: template in {overlap, cyclic, nested, conflict, chain4, cyclic4, nested4}, attribute sizes 2..4 with <= 200 cells, records N in '
             '{50, 300, 2000} drawn from a skewed Dirichlet, per-measurement query kind/spelling/noise drawn at random, noise regime in {low, medium, high}; each instance x '
@@ -35,7 +35,7 @@ class C03(Prop):
     trusted_base = ['numpy dense linear algebra', 'weak duality of the Frank-Wolfe gap for a convex differentiable objective over the scaled simplex',
                     'scipy.sparse / aslinearoperator used only to spell the inputs']
     assumptions = ['decided only on the seeded finite sample described in rule (bounded, not a proof)',
-                   '"enough iterations" = 5000 (quick) / 50000 (thorough), escalated once by 4x on a miss; observed margin on the unchanged tree: (L(model)-L_ref)/tol <= 0.05',
+                   '"enough iterations" = 5000 (quick) / 50000 (thorough), escalated once by 4x on a near miss (excess <= 100*tol); observed on the unchanged tree over seeds 0..3: (L(model)-L_ref)/tol <= 0.24 for 119 of 120 cases, one MD case needed the escalation (1.9 -> 0.004)',
                    'tolerance tol = 1e-3*(L(uniform)-L_ref) + 1e-9 as fixed in DESIGN.md',
                    'the reference problem uses model.total as the total (supplied or estimated by the library; its value is the subject of C09)']
     quick_budget_s = 90
@@ -131,8 +131,9 @@ class C03(Prop):
         tol = 1e-3 * (L_uni - L_ref) + 1e-9
         det = dict(solver=case['solver'], iters=case['iters'], model_total=T, L_model=Lm, L_ref=L_ref, fw_gap_ref=g_ref, L_uniform=L_uni, tol=tol,
                    excess_over_tol=(Lm - L_ref) / tol)
-        if Lm > L_ref + tol and g_ref <= 0.1 * tol:
-            # "given enough iterations": one escalation before the miss is reported
+        if L_ref + tol < Lm <= L_ref + 100 * tol and g_ref <= 0.1 * tol:
+            # "given enough iterations": a near miss (at least 90% of the way from the uniform start to the optimum) is
+            # re-run once with 4x the iterations before it is reported; anything further away is reported directly
             T2, Lm2 = run(4 * case['iters'])
             det.update(escalated_iters=4 * case['iters'], L_model_escalated=Lm2, first_L_model=Lm)
             if T2 == T:
